@@ -55,14 +55,17 @@ META = {
         "parameters and helpers); an inventory link's refuri is computed from the inventory match (assumed, recognised by role: result of get_inventory_matches or an InvMatch parameter); a destination that receives only one part of a split href must have the remainder stored on the same node (download_reference excepted); image alt is "
         "the text of the image token's children, agrees per token type with markdown-it's reference renderInlineAsText and visits nested inline nodes in source order (recursion or an "
         "order-preserving work list); the ordered-list start reaches the node for every legal start including 0 (decision table of the guards and the stored value), copy_attributes never "
-        "tests the truthiness of a value it copies; the code language derives from token.info; no output-format encoder (escapeHtml, html.escape ...) lies between the href/src and the stored destination; the fragments of the library lexer add up to the code text, checked as two facts read off the docutils/pygments sources: "
+        "tests the truthiness of a value it copies; the code language derives from token.info and is its first whitespace-delimited word (cut with str.split on any whitespace, as markdown-it's fence renderer does, not at one separator character); "
+        "a forward flow analysis of the percent-encoding state (attrGet/normalizeLink = encoded, normalizeLinkText = decoded) shows that no refuri/uri receives a decoded value on any path (an id_link refuri is a local target name, C09); "
+        "html_to_nodes' convertibility gate and conversion loop range over every child of the parsed HTML (all-or-nothing conversion of a raw-HTML leaf); no output-format encoder (escapeHtml, html.escape ...) lies between the href/src and the stored destination; the fragments of the library lexer add up to the code text, checked as two facts read off the docutils/pygments sources: "
         "(1) pygments' default stripnl=True (docutils passes no options) must be switched off on the lexer on every path to the fragment loop, (2) the final newline that docutils' Lexer.merge strips must be put back. "
-        "Two instances fire on the current tree and are known findings: render_link_url stores escapeHtml(uri) as refuri, and the final newline of highlighted code is not restored in the docutils back end. "
+        "Three instances fire on the current tree and are known findings: render_link_url stores escapeHtml(uri) as refuri; render_link_url stores the destination percent-decoded when the scheme's url_schemes item has no 'url' template; "
+        "the final newline of highlighted code is not restored in the docutils back end. "
         "R4: current_node is rebound only by setup_render, by the save/set/restore halves of current_node_context (append before the rebind) and as the final statement of the section branch of "
         "render_heading or of a helper that render_heading calls last; += on it appends in place (docutils Element.__iadd__). "
         "R5 back ends: renderer subclasses override only link/math methods and add no handler; create_md_parser's renderer argument reaches only MarkdownIt(renderer_cls=...) and no condition; both "
-        "front ends render with create_md_parser(config, <DocutilsRenderer class>) of the document being parsed - directly, through a helper returning a fresh parser, or through a cache whose key covers "
-        "every configuration field create_md_parser reads. "
+        "front ends render with create_md_parser(config, <DocutilsRenderer class>) of the document being parsed - directly, through a helper returning a fresh parser, or from a cache (module-, class- or instance-level, in the front end or a helper) whose key covers "
+        "every configuration field create_md_parser reads (repr(config) covers only the fields MdParserConfig.__repr__ prints in full) and whose options['myst_config'] is refreshed. "
         "R6: update_section_level_state records the section under its level, picks the parent among exactly the strictly shallower levels and removes exactly the deeper levels (if the level is stored after the pruning, the filter may drop the level itself) "
         "(decision table of the filter over key - level, or linear form of the range bounds; a constant bound is accepted only if no call site adds an unbounded term such as self._heading_offset to the level). Only normal control flow is judged (exception handlers are C01's subject)."
     ),
@@ -2667,6 +2670,252 @@ def _encoders_on_slice(e: ast.AST, fi: FunctionInfo) -> list[ast.Call]:
     return out
 
 
+def _slice_calls(e: ast.AST, fi: FunctionInfo, an: "Nesting", depth: int = 0, seen_f: set | None = None):
+    """(call, function) for every Call on the backward data slice of ``e``: through local definitions, into the return
+    values of package helpers that are called on the slice, and - for plain string parameters - into the arguments at the
+    call sites."""
+    seen_f = seen_f if seen_f is not None else set()
+    seen: set[str] = set()
+    work = [e]
+    while work:
+        x = work.pop()
+        for n in ast.walk(x):
+            if isinstance(n, ast.Call):
+                yield n, fi
+                if depth < 3:
+                    m = an.resolve_callee(n, fi)
+                    if m is not None and not m.is_lambda and (m.fq, "ret") not in seen_f:
+                        seen_f.add((m.fq, "ret"))
+                        for r in m.local_nodes():
+                            if isinstance(r, ast.Return) and r.value is not None:
+                                yield from _slice_calls(r.value, m, an, depth + 1, seen_f)
+            if isinstance(n, ast.Attribute) and depth < 3 and isinstance(n.value, ast.Name):
+                # a property of a package class read on a local (e.g. info.directive_name): follow the object
+                pass
+            if isinstance(n, ast.Name) and n.id not in seen:
+                seen.add(n.id)
+                work.extend(_all_defs(fi, n.id))
+                if n.id in fi.params and n.id not in ("self", "cls") and depth < 3 and _is_str_annotation(_param_annotation(fi, n.id)) and (fi.fq, n.id) not in seen_f:
+                    seen_f.add((fi.fq, n.id))
+                    for g in an.scope():
+                        for c in g.local_nodes():
+                            if isinstance(c, ast.Call) and fi in an.call_targets_safe(c, g):
+                                for a in an._args_for_param(c, fi, n.id):
+                                    yield from _slice_calls(a, g, an, depth + 1, seen_f)
+
+
+def _language_word(corpus: Corpus, rep: Report, an: "Nesting", f: FunctionInfo, holder: FunctionInfo, lx: ast.expr, key: str, site: str) -> None:
+    """The language of a code block is the first *whitespace*-delimited word of the info string (CommonMark; markdown-it's
+    own fence renderer uses ``info.split(maxsplit=1)``): on the way from token.info to the lexer name the string may only
+    be cut with str.split on any whitespace, not at one particular separator character."""
+    cuts = []
+    for c, g in _slice_calls(lx, holder, an):
+        if isinstance(c.func, ast.Attribute) and c.func.attr in SPLITTERS and _reaches(c.func.value, g, an, _field_source("info")):
+            cuts.append((c, g))
+        elif (dotted(c.func) or "") in ("re.split", "re.match", "re.search", "re.fullmatch") and len(c.args) >= 2 and _reaches(c.args[1], g, an, _field_source("info")):
+            cuts.append((c, g))
+    if not cuts:
+        raise Unsupported(f"{f.qualname}: how the language word is cut out of the info string was not recognised")
+    for c, g in cuts:
+        if isinstance(c.func, ast.Attribute) and c.func.attr in ("split", "rsplit"):
+            sep = arg_or_kw(c, 0, "sep")
+            if sep is None or (isinstance(sep, ast.Constant) and sep.value is None):
+                continue
+            bad = sep
+        elif isinstance(c.func, ast.Attribute):
+            bad = c.args[0] if c.args else None
+        else:
+            pat = c.args[0]
+            if isinstance(pat, ast.Constant) and isinstance(pat.value, str) and ("\\s" in pat.value or "\\S" in pat.value):
+                continue
+            raise Unsupported(f"{f.qualname}: regular expression `{short(pat, 30)}` for the language word not understood")
+        rep.violation("C02.R3", key, g.module.site(c), f"the language word is cut out of the info string with `{short(c, 50)}`: only {short(bad, 20) if bad is not None else 'that separator'} ends the word, "
+                      "while CommonMark / markdown-it end it at any whitespace (`info.split(maxsplit=1)`): for ```python<TAB>title the language becomes 'python\\ttitle'")
+        return
+    rep.ok("C02.R3", key, site, "cut at any whitespace (str.split without separator), as markdown-it's fence renderer does")
+
+
+ENC, DEC, OTHER = "encoded", "decoded", "other"
+
+
+def _decoded_destination(rep: Report, an: "Nesting", fi: FunctionInfo, key_name: str, store: ast.stmt, value: ast.expr) -> bool:
+    """markdown-it hands out percent-ENCODED destinations; ``normalizeLinkText`` DECODES them (for display / template
+    variables), ``normalizeLink`` encodes again. A forward flow analysis of that state over the CFG, for the locals the stored
+    value is made of: a URI attribute (refuri / uri) must not receive a value that is in the decoded state on some path.
+    Reports one violation per decoding definition that reaches the store; returns True if it reported."""
+    names = [n.id for n in ast.walk(value) if isinstance(n, ast.Name)]
+    cfg = get_cfg(fi)
+    reported = False
+
+    def state_of(e: ast.AST, env: dict[str, set[str]]) -> set[str]:
+        if isinstance(e, ast.Call):
+            d = dotted(e.func) or ""
+            if d.endswith("normalizeLinkText"):
+                return {DEC}
+            if d.endswith("normalizeLink"):
+                return {ENC}
+            if isinstance(e.func, ast.Attribute) and e.func.attr == "attrGet":
+                return {ENC}
+            if d in ("cast",) and len(e.args) == 2:
+                return state_of(e.args[1], env)
+            if d.endswith("escapeHtml") and e.args:
+                return state_of(e.args[0], env)
+            out: set[str] = set()
+            for a in list(e.args) + [k.value for k in e.keywords]:
+                out |= state_of(a, env)
+            return ({DEC} if DEC in out else set()) | {OTHER}
+        if isinstance(e, ast.Name):
+            return set(env.get(e.id, {OTHER}))
+        if isinstance(e, ast.BoolOp):
+            out = set()
+            for v in e.values:
+                if not isinstance(v, ast.Constant):
+                    out |= state_of(v, env)
+            return out or {OTHER}
+        if isinstance(e, ast.IfExp):
+            return state_of(e.body, env) | state_of(e.orelse, env)
+        if isinstance(e, ast.Lambda):
+            return state_of(e.body, env)
+        out = set()
+        for c in ast.iter_child_nodes(e):
+            if isinstance(c, ast.expr):
+                out |= state_of(c, env)
+        return ({DEC} if DEC in out else set()) | ({ENC} if out == {ENC} else {OTHER}) if out else {OTHER}
+
+    # worklist over CFG nodes; env: name -> set of (state, defining stmt id)
+    tracked: set[str] = set()
+    work_names = list(names)
+    while work_names:
+        nm = work_names.pop()
+        if nm in tracked:
+            continue
+        tracked.add(nm)
+        for d in _all_defs(fi, nm):
+            work_names.extend(x.id for x in ast.walk(d) if isinstance(x, ast.Name))
+    inn: dict[object, dict[str, frozenset]] = {"ENTRY": {}}
+    work = ["ENTRY"]
+    outs: dict[object, dict[str, frozenset]] = {}
+    while work:
+        n = work.pop()
+        env = {k: set(v) for k, v in inn.get(n, {}).items()}
+        if isinstance(n, ast.stmt):
+            for nm in tracked:
+                b = _binds(n, nm)
+                if b is False:
+                    continue
+                if b is True:
+                    env[nm] = {(OTHER, 0)}
+                else:
+                    plain = {k: {s for s, _ in v} for k, v in env.items()}
+                    if isinstance(n, ast.Assign) and isinstance(n.targets[0], (ast.Tuple, ast.List)):
+                        st = {OTHER}
+                    else:
+                        st = state_of(b, plain)
+                    env[nm] = {(x, id(n) if x == DEC else 0) for x in st}
+        new = {k: frozenset(v) for k, v in env.items()}
+        if outs.get(n) == new and n in outs:
+            continue
+        outs[n] = new
+        for sx in cfg.succ.get(n, []):
+            cur = inn.get(sx, {})
+            merged = {k: frozenset(set(cur.get(k, frozenset())) | set(new.get(k, frozenset()))) for k in set(cur) | set(new)}
+            if merged != cur or sx not in inn:
+                inn[sx] = merged
+                work.append(sx)
+    env_at = inn.get(cfg.stmt_of(store), {})
+    plain = {k: {s for s, _ in v} for k, v in env_at.items()}
+    if DEC not in state_of(value, plain):
+        return False
+    stmts = {id(x): x for x in fi.local_nodes() if isinstance(x, ast.stmt)}
+    culprits = sorted({sid for nm in names for s_, sid in env_at.get(nm, ()) if s_ == DEC and sid}, key=lambda i: stmts[i].lineno)
+    for sid in culprits or [0]:
+        d = stmts.get(sid)
+        guards = sorted({("" if pol else "not ") + short(t, 40) for t, pol in cfg.guards(d)}) if d is not None else []
+        k = f"{fi.fq}|{key_name} stored percent-decoded|decoded {'under: ' + ' and '.join(guards) if guards else 'unconditionally'}"
+        rep.violation("C02.R3", k, fi.module.site(d if d is not None else store),
+                      f"`{short(d, 50) if d is not None else short(value, 40)}` percent-decodes the destination and on some path `{key_name}` is stored without re-encoding it (normalizeLink): "
+                      "`[a](http://x/a%20b)` gets the destination 'http://x/a b' in the doctree while the token (and the same link on the other paths) keeps 'http://x/a%20b'")
+        reported = True
+    return reported
+
+
+def _html_all_or_nothing(corpus: Corpus, rep: Report, an: "Nesting") -> None:
+    """html_to_nodes replaces an HTML leaf by directive output only if *every* child of the parsed HTML is convertible;
+    otherwise the text goes out verbatim as one raw node. Both the convertibility gate and the conversion loop must
+    therefore range over all children of the parse result - a filtered subset silently drops what was filtered out."""
+    f = corpus.func("mdit_to_docutils.html_to_nodes:html_to_nodes")
+    rep.saw_function(f.fq)
+    roots = [n for n in f.local_nodes() if isinstance(n, ast.Assign) and len(n.targets) == 1 and isinstance(n.targets[0], ast.Name) and any(isinstance(c, ast.Call) and (dotted(c.func) or "").endswith("tokenize_html") for c in ast.walk(n.value))]
+    if len(roots) != 1:
+        raise Unsupported("html_to_nodes: the parse result of tokenize_html is not bound once")
+    root = roots[0].targets[0].id
+
+    def complete(it: ast.expr, depth: int = 0) -> str | None:
+        """None if the iterable is all children of the parse result, else what restricts it."""
+        if isinstance(it, ast.Name) and it.id == root:
+            return None
+        if isinstance(it, ast.Attribute) and it.attr == "children" and isinstance(it.value, ast.Name) and it.value.id == root:
+            return None
+        if isinstance(it, ast.Call) and dotted(it.func) in ("list", "tuple", "iter") and len(it.args) == 1:
+            return complete(it.args[0], depth + 1)
+        if isinstance(it, ast.Name) and depth < 3:
+            defs = _all_defs(f, it.id)
+            if len(defs) == 1:
+                return complete(defs[0], depth + 1)
+        if isinstance(it, (ast.ListComp, ast.GeneratorExp)) and len(it.generators) == 1:
+            g = it.generators[0]
+            if g.ifs:
+                return f"the filter `if {short(g.ifs[0], 40)}`"
+            if unparse(it.elt) == unparse(g.target):
+                return complete(g.iter, depth + 1)
+        if isinstance(it, ast.Call) and dotted(it.func) == "filter":
+            return f"`{short(it, 40)}`"
+        if isinstance(it, ast.Subscript) and isinstance(it.slice, ast.Slice):
+            return f"the slice `{short(it, 40)}`"
+        raise Unsupported(f"html_to_nodes: iterable `{short(it, 40)}` not understood")
+
+    def converts(node: ast.AST, fn: FunctionInfo, depth: int = 0) -> bool:
+        """The code runs a directive, itself or through module-level helpers."""
+        for c in ast.walk(node):
+            if isinstance(c, ast.Call):
+                if isinstance(c.func, ast.Attribute) and c.func.attr == "run_directive":
+                    return True
+                if isinstance(c.func, ast.Name) and depth < 2:
+                    m = an.resolve_callee(c, fn)
+                    if m is not None and not m.is_lambda and m.fq != fn.fq and converts(m.node, m, depth + 1):
+                        return True
+        return False
+
+    def falls_back(node: ast.AST) -> bool:
+        return any(isinstance(r, ast.Return) and isinstance(r.value, ast.Call) and (dotted(r.value.func) or "").endswith("default_html") for r in ast.walk(node))
+
+    top_loops = [n for n in f.local_nodes() if isinstance(n, ast.For) and not any(isinstance(a, (ast.For, ast.While)) for a in ancestors(n))]
+    loops = [n for n in top_loops if converts(n, f)]
+    # the gate: `if not all(<test> for child in X): return default_html(...)`, or a loop over X that returns the fallback
+    gate_iters: list[tuple[ast.expr, str | None, ast.AST]] = []
+    for c in f.local_nodes():
+        if isinstance(c, ast.Call) and dotted(c.func) in ("all", "any") and c.args and isinstance(c.args[0], (ast.GeneratorExp, ast.ListComp)):
+            st = parent(c)
+            while st is not None and not isinstance(st, ast.stmt):
+                st = parent(st)
+            if isinstance(st, ast.If) and falls_back(st):
+                gg = c.args[0].generators[0]
+                gate_iters.append((gg.iter, (f"the filter `if {short(gg.ifs[0], 40)}`" if gg.ifs else None), c))
+    for n in top_loops:
+        if n not in loops and falls_back(n):
+            gate_iters.append((n.iter, None, n))
+    if len(gate_iters) != 1 or len(loops) != 1:
+        raise Unsupported(f"html_to_nodes: expected one convertibility gate and one conversion loop, found {len(gate_iters)} / {len(loops)}")
+    g_iter, g_extra, g_node = gate_iters[0]
+    for what, it, extra, node in (("convertibility gate", g_iter, g_extra, g_node), ("conversion loop", loops[0].iter, None, loops[0])):
+        k = f"{f.fq}|{what} ranges over every child of the parsed HTML"
+        why = extra or complete(it)
+        if why is None:
+            rep.ok("C02.R3", k, f.module.site(node), f"iterates `{root}`")
+        else:
+            rep.violation("C02.R3", k, f.module.site(node), f"the {what} of html_to_nodes ranges over the children restricted by {why}: character data, comments and entities between the convertible elements are neither a reason to fall back to the raw node nor converted - that part of the raw-HTML leaf vanishes from the doctree")
+
+
 @rule("C02.R3")
 def r3_verbatim_leaves(corpus: Corpus, rep: Report, tier: str):
     rep.rule("C02.R3", "leaf text is exactly token.content; the highlighter appends every lexer fragment once; destinations, image uri/alt, list start and code language derive from the token")
@@ -2813,6 +3062,11 @@ def r3_verbatim_leaves(corpus: Corpus, rep: Report, tier: str):
                 if key_name == "refuri" and _from_inventory_match(value, fi, an):
                     rep.assumed("C02.R3", k, fi.module.site(site_node), INVENTORY_DEST_WHY)
                     return
+                if key_name in ("refuri", "uri") and isinstance(site_node, ast.Assign):
+                    recv = unparse(site_node.targets[0].value)
+                    local_target = any(isinstance(o, ast.Assign) and isinstance(o.targets[0], ast.Subscript) and unparse(o.targets[0].value) == recv and isinstance(o.targets[0].slice, ast.Constant) and o.targets[0].slice.value == "id_link" for o in fi.local_nodes())
+                    if not local_target:  # an id_link refuri is the name of a local target to look up (C09), not a URI
+                        _decoded_destination(rep, an, fi, key_name, site_node, value)
                 enc = _encoders_on_slice(value, fi)
                 if enc and _reaches(value, fi, an, _attr_source(attr)):
                     ke = f"{fi.fq}|{key_name} is stored without output-format escaping"
@@ -2872,6 +3126,7 @@ def r3_verbatim_leaves(corpus: Corpus, rep: Report, tier: str):
         else:
             rep.violation("C02.R3", k, b.site(alts[0]), f"`alt` is `{short(v, 50)}`, not the text of the image token's children")
     _alt_text_agreement(corpus, rep, tt=_token_types(corpus, rep))
+    _html_all_or_nothing(corpus, rep, an)
     _list_start(corpus, rep, an)
     _generic_copy_not_truthy(corpus, rep)
     for q, field in (("DocutilsRenderer.render_fence", "info"), ("DocutilsRenderer.render_code_block", "info")):
@@ -2885,6 +3140,7 @@ def r3_verbatim_leaves(corpus: Corpus, rep: Report, tier: str):
                     k = f"{f.fq}|code language carried over from token.info" + ("" if n_lang == 1 else f"#{n_lang}")
                     if lx is not None and _reaches(lx, holder, an, _field_source(field)):
                         rep.ok("C02.R3", k, holder.module.site(c), f"lexer name `{short(lx, 30)}` derives from token.info")
+                        _language_word(corpus, rep, an, f, holder, lx, f"{f.fq}|language is the first whitespace-delimited word of token.info" + ("" if n_lang == 1 else f"#{n_lang}"), holder.module.site(c))
                     else:
                         rep.violation("C02.R3", k, holder.module.site(c), f"the language handed to the highlighter (`{short(lx, 30) if lx is not None else 'none'}`) does not derive from the info string of the code token")
         if not n_lang:
@@ -3386,91 +3642,198 @@ def _config_reads(fi: FunctionInfo, cfg_param: str) -> set[str]:
     return {n.attr for n in fi.local_nodes() if isinstance(n, ast.Attribute) and isinstance(n.value, ast.Name) and n.value.id == cfg_param}
 
 
+def _repr_covered_fields(corpus: Corpus) -> set[str] | None:
+    """Fields of MdParserConfig whose full value appears in repr(config): declared without ``repr=False`` and without a
+    ``repr_func`` that abbreviates the value. None if the class does not define the understood __repr__/fields."""
+    try:
+        ci = corpus.cls("config.main:MdParserConfig")
+    except AnchorMissing:
+        return None
+    out = set()
+    for st in ci.node.body:
+        if isinstance(st, ast.AnnAssign) and isinstance(st.target, ast.Name):
+            v = st.value
+            full = True
+            if isinstance(v, ast.Call):
+                r = kwarg(v, "repr")
+                if isinstance(r, ast.Constant) and r.value is False:
+                    full = False
+                md = kwarg(v, "metadata")
+                if isinstance(md, ast.Dict) and any(isinstance(k, ast.Constant) and k.value == "repr_func" for k in md.keys):
+                    full = False
+            if full:
+                out.add(st.target.id)
+    return out
+
+
+class _Provenance:
+    """Where the MarkdownIt object that a front end renders with comes from."""
+
+    def __init__(self, corpus: Corpus, cmp_fn: FunctionInfo, ok_classes: set[str]):
+        self.c = corpus
+        self.cmp = cmp_fn
+        self.reads = _config_reads(cmp_fn, cmp_fn.params[0])
+        self.ok_classes = ok_classes
+        self.how: list[str] = []
+
+    def _is_cmp(self, call: ast.Call, fn: FunctionInfo) -> bool:
+        d = dotted(call.func) or ""
+        t = self.c.find_function(fn.module.resolve(d)) if d else None
+        return t is not None and t.fq == self.cmp.fq
+
+    def check_ctor(self, call: ast.Call, fn: FunctionInfo, cfg: str, renderer_param: str | None) -> str | None:
+        a0 = call.args[0] if call.args else kwarg(call, self.cmp.params[0])
+        if not (isinstance(a0, ast.Name) and a0.id == cfg):
+            return f"{fn.qualname} builds the parser from `{short(a0, 30) if a0 is not None else '?'}`, not from the configuration it is given"
+        r = call.args[1] if len(call.args) > 1 else kwarg(call, self.cmp.params[1])
+        rn = (dotted(r) or "").split(".")[-1] if r is not None else ""
+        if not (rn in self.ok_classes or (renderer_param is not None and rn == renderer_param)):
+            return f"the parser is built with the renderer `{short(r, 30) if r is not None else 'default'}`, not with a DocutilsRenderer class"
+        return None
+
+    def cache_verdict(self, sub: ast.Subscript, fn: FunctionInfo, cfg: str, renderer_param: str | None) -> str | None:
+        cache = unparse(sub.value)
+        # the store that fills the cache
+        fills = [n for n in fn.local_nodes() if isinstance(n, ast.Assign) and len(n.targets) == 1 and isinstance(n.targets[0], ast.Subscript) and unparse(n.targets[0].value) == cache and isinstance(n.value, ast.Call) and self._is_cmp(n.value, fn)]
+        if not fills:
+            raise Unsupported(f"{fn.qualname}: no `{cache}[...] = create_md_parser(...)` store found for the cached parser")
+        for fl in fills:
+            v = self.check_ctor(fl.value, fn, cfg, renderer_param)
+            if v:
+                return v
+        fields: set[str] = set()
+        whole = False
+        seen: set[str] = set()
+        work: list[ast.AST] = [sub.slice]
+        reprd = False
+        while work:
+            x = work.pop()
+            for n in ast.walk(x):
+                if isinstance(n, ast.Attribute) and isinstance(n.value, ast.Name) and n.value.id == cfg:
+                    fields.add(n.attr)
+                elif isinstance(n, ast.Name):
+                    if n.id == cfg:
+                        par = parent(n)
+                        if isinstance(par, ast.Attribute) and par.value is n:
+                            continue
+                        if (isinstance(par, ast.Call) and dotted(par.func) in ("repr", "str", "format")) or isinstance(par, ast.FormattedValue):
+                            reprd = True
+                        else:
+                            whole = True
+                    elif n.id not in seen:
+                        seen.add(n.id)
+                        work.extend(_all_defs(fn, n.id))
+        if reprd and not whole:
+            cov = _repr_covered_fields(self.c)
+            if cov is None:
+                raise Unsupported("MdParserConfig fields not readable")
+            fields |= cov
+        refreshed = any(
+            (isinstance(n, ast.Assign) and isinstance(n.targets[0], ast.Subscript) and isinstance(n.targets[0].slice, ast.Constant) and n.targets[0].slice.value == "myst_config" and isinstance(n.value, ast.Name) and n.value.id == cfg)
+            or (isinstance(n, ast.Call) and isinstance(n.func, ast.Attribute) and n.func.attr == "update" and "myst_config" in unparse(n) and any(isinstance(x, ast.Name) and x.id == cfg for x in ast.walk(n)))
+            for n in fn.local_nodes()
+        )
+        missing = sorted(self.reads - fields)
+        if not whole and missing:
+            return (
+                f"{fn.qualname} takes the parser from the cache `{cache}` whose key ({short(sub.slice, 30)}{' = repr of the configuration, which omits or abbreviates fields' if reprd else ''}) does not cover the configuration fields "
+                f"{', '.join(missing)} that create_md_parser reads when it builds the parser: a document is tokenised with the plugin settings of an earlier document "
+                "that had the same key, so its doctree is not the image of create_md_parser(config).parse(text)"
+            )
+        if not whole and not refreshed:
+            return (
+                f"{fn.qualname} takes the parser from the cache `{cache}` and does not refresh options['myst_config']: the renderer reads the configuration object of the document "
+                "that created the parser, not that of the document being rendered"
+            )
+        self.how.append(f"cache {cache} keyed on every configuration field create_md_parser reads")
+        return None
+
+    def verdict(self, e: ast.expr, fn: FunctionInfo, cfg: str, renderer_param: str | None, depth: int = 0) -> str | None:
+        """None if ``e`` evaluates to the parser create_md_parser builds for ``cfg``; otherwise the complaint."""
+        if depth > 4:
+            raise Unsupported("parser provenance too deep")
+        if isinstance(e, ast.Name):
+            defs = _all_defs(fn, e.id)
+            if not defs:
+                raise Unsupported(f"{fn.qualname}: `{e.id}` has no definition")
+            for d in defs:
+                v = self.verdict(d, fn, cfg, renderer_param, depth + 1)
+                if v:
+                    return v
+            return None
+        if isinstance(e, ast.Subscript):
+            root = e.value
+            is_shared = (isinstance(root, ast.Name) and root.id in fn.module.const_nodes) or (
+                isinstance(root, ast.Attribute) and isinstance(root.value, ast.Name) and (root.value.id in ("self", "cls") or root.value.id in fn.module.classes)
+            )
+            if is_shared:
+                return self.cache_verdict(e, fn, cfg, renderer_param)
+            raise Unsupported(f"{fn.qualname}: parser taken from `{short(e, 40)}`")
+        if isinstance(e, ast.Call):
+            if self._is_cmp(e, fn):
+                v = self.check_ctor(e, fn, cfg, renderer_param)
+                if not v:
+                    self.how.append("fresh create_md_parser(config, renderer)")
+                return v
+            d = dotted(e.func) or ""
+            h = self.c.find_function(fn.module.resolve(d)) if d and "." not in d else None
+            if h is None and isinstance(e.func, ast.Attribute) and isinstance(e.func.value, ast.Name) and e.func.value.id in ("self", "cls") and fn.cls is not None:
+                h = self.c.lookup_method(fn.cls, e.func.attr)
+            if h is None or h.is_lambda:
+                raise Unsupported(f"{fn.qualname}: parser factory `{short(e.func, 40)}` is not a package function")
+            hp = [p for p in h.params if p not in ("self", "cls")]
+            if len(hp) < 2:
+                raise Unsupported(f"{h.fq}: parser helper signature")
+            a0 = e.args[0] if e.args else kwarg(e, hp[0])
+            if not (isinstance(a0, ast.Name) and a0.id == cfg):
+                return f"{fn.qualname} asks {h.name} for a parser for `{short(a0, 30) if a0 is not None else '?'}`, not for the configuration of this document"
+            r = e.args[1] if len(e.args) > 1 else kwarg(e, hp[1])
+            rn = (dotted(r) or "").split(".")[-1] if r is not None else ""
+            if rn not in self.ok_classes and rn != (renderer_param or ""):
+                return f"the front end builds its parser with the renderer `{short(r, 30) if r is not None else 'default'}`, not with a DocutilsRenderer class"
+            rets = [x for x in h.local_nodes() if isinstance(x, ast.Return) and x.value is not None]
+            if not rets:
+                raise Unsupported(f"{h.fq}: no return")
+            for x in rets:
+                v = self.verdict(x.value, h, hp[0], hp[1], depth + 1)
+                if v:
+                    return v
+            self.how.append(f"through {h.name}")
+            return None
+        raise Unsupported(f"{fn.qualname}: parser expression `{short(e, 40)}` not understood")
+
+
 def _front_end_parsers(corpus: Corpus, rep: Report, cmp_fn: FunctionInfo) -> None:
-    """Both front ends render with the parser create_md_parser builds for the document's configuration: directly, or
-    through a helper that returns a fresh one - or a cached one whose key covers every configuration field that
-    create_md_parser reads (a parser built for another configuration tokenises differently than the configuration of
-    this document says, so the doctree is no image of create_md_parser(config).parse(text))."""
-    cfg_param = cmp_fn.params[0]
-    reads = _config_reads(cmp_fn, cfg_param)
+    """Both front ends render with the parser create_md_parser builds for the document's configuration: directly, through a
+    helper that returns a fresh one, or from a cache (module-, class- or instance-level container, in the front end or in a
+    helper) whose key covers every configuration field create_md_parser reads - repr(config) covers only the fields that
+    MdParserConfig.__repr__ prints in full - and whose options['myst_config'] is refreshed. A parser built for another
+    configuration tokenises differently than this document's configuration says, so the doctree is no image of
+    create_md_parser(config).parse(text)."""
     base_ci = corpus.cls(RENDERER)
     ok_classes = {base_ci.name} | {c.name for c in corpus.subclasses(base_ci)}
     for fq in ("parsers.docutils_:Parser.parse", "parsers.sphinx_:MystParser.parse"):
         fe = corpus.func(fq)
         rep.saw_function(fe.fq)
         k = f"{fe.fq}|renders with create_md_parser(config) for this document"
-        rcalls = [c for c in fe.local_nodes() if isinstance(c, ast.Call) and isinstance(c.func, ast.Attribute) and c.func.attr == "render" and isinstance(c.func.value, ast.Name) and c.args]
-        cands = []
-        for c in rcalls:
-            for d in _all_defs(fe, c.func.value.id):
-                if isinstance(d, ast.Call):
-                    cands.append((c, d))
-        if len(cands) != 1:
-            raise Unsupported(f"{fe.qualname}: expected one `<parser>.render(text)` on a parser built by a call, found {len(cands)}")
-        rcall, ctor = cands[0]
-        site = fe.module.site(ctor)
-        d = dotted(ctor.func) or ""
-        target = corpus.find_function(fe.module.resolve(d)) if d else None
-        if target is None:
-            raise Unsupported(f"{fe.qualname}: parser factory `{short(ctor.func, 40)}` is not a package function")
-        rcls = ctor.args[1] if len(ctor.args) > 1 else kwarg(ctor, "renderer")
-        if rcls is None or (dotted(rcls) or "").split(".")[-1] not in ok_classes:
-            rep.violation("C02.R5", k, site, f"the front end builds its parser with the renderer `{short(rcls, 30) if rcls is not None else 'default'}`, not with a DocutilsRenderer class")
-            continue
-        if target.fq == cmp_fn.fq:
-            rep.ok("C02.R5", k, site, "fresh create_md_parser(config, renderer) per parse")
-            continue
-        # a helper between the front end and create_md_parser
-        h = target
-        hp = h.params
-        if len(hp) < 2:
-            raise Unsupported(f"{h.fq}: parser helper signature")
-        hcfg = hp[0]
-        rets = [r for r in h.local_nodes() if isinstance(r, ast.Return) and r.value is not None]
-        verdict = None
-        for r in rets:
-            v = r.value
-            while isinstance(v, ast.Name) and len(_all_defs(h, v.id)) == 1:
-                v = _all_defs(h, v.id)[0]
-            if isinstance(v, ast.Call) and corpus.find_function(h.module.resolve(dotted(v.func) or "")) is not None and corpus.find_function(h.module.resolve(dotted(v.func) or "")).fq == cmp_fn.fq:
-                a0 = v.args[0] if v.args else kwarg(v, cfg_param)
-                if not (isinstance(a0, ast.Name) and a0.id == hcfg):
-                    verdict = f"{h.qualname} builds the parser from `{short(a0, 30) if a0 is not None else '?'}`, not from the configuration it is given"
-                continue
-            if isinstance(v, ast.Subscript) and isinstance(v.value, ast.Name) and v.value.id in h.module.const_nodes:
-                # a module-level cache: its key must determine everything create_md_parser reads from the configuration
-                keyexpr = v.slice
-                names = {hcfg} if any(isinstance(x, ast.Name) and x.id == hcfg and not isinstance(parent(x), ast.Attribute) for x in ast.walk(keyexpr)) else set()
-                fields: set[str] = set()
-                whole = False
-                seen: set[str] = set()
-                work = [keyexpr]
-                while work:
-                    x = work.pop()
-                    for n in ast.walk(x):
-                        if isinstance(n, ast.Attribute) and isinstance(n.value, ast.Name) and n.value.id == hcfg:
-                            fields.add(n.attr)
-                        elif isinstance(n, ast.Name):
-                            if n.id == hcfg and not (isinstance(parent(n), ast.Attribute) and parent(n).value is n):
-                                whole = True
-                            elif n.id not in seen:
-                                seen.add(n.id)
-                                work.extend(_all_defs(h, n.id))
-                missing = sorted(reads - fields)
-                if not whole and missing:
-                    verdict = (
-                        f"{h.qualname} returns a parser from the module-level cache `{v.value.id}` whose key does not cover the configuration fields "
-                        f"{', '.join(missing)} that create_md_parser reads when it builds the parser: a document is tokenised with the plugin settings of an earlier document "
-                        "that had the same key, so its doctree is not the image of create_md_parser(config).parse(text)"
-                    )
-                continue
-            raise Unsupported(f"{h.fq}: return value `{short(v, 50)}` not understood")
-        if not rets:
-            raise Unsupported(f"{h.fq}: no return")
+        rcalls = [c for c in fe.local_nodes() if isinstance(c, ast.Call) and isinstance(c.func, ast.Attribute) and c.func.attr == "render" and isinstance(c.func.value, ast.Name) and c.args and _all_defs(fe, c.func.value.id)]
+        if len(rcalls) != 1:
+            raise Unsupported(f"{fe.qualname}: expected one `<parser>.render(text)`, found {len(rcalls)}")
+        pname = rcalls[0].func.value
+        # the configuration of the document: the name handed to create_md_parser / the helper / used in the cache key
+        cfg_names = {n.id for d in _all_defs(fe, pname.id) for n in ast.walk(d) if isinstance(n, ast.Name)} | {
+            n.id for st in fe.local_nodes() if isinstance(st, ast.Assign) and isinstance(st.value, ast.Call) for n in ast.walk(st.value) if isinstance(n, ast.Name) and any(isinstance(c, ast.Call) and (dotted(c.func) or "").endswith("create_md_parser") for c in [st.value])
+        }
+        cfg = "config" if "config" in cfg_names or _all_defs(fe, "config") else None
+        if cfg is None:
+            raise Unsupported(f"{fe.qualname}: configuration variable not found")
+        pv = _Provenance(corpus, cmp_fn, ok_classes)
+        verdict = pv.verdict(pname, fe, cfg, None)
+        site = fe.module.site(rcalls[0])
         if verdict:
             rep.violation("C02.R5", k, site, verdict)
         else:
-            rep.ok("C02.R5", k, site, f"through {h.qualname}: fresh parser, or cache keyed on every configuration field create_md_parser reads")
+            rep.ok("C02.R5", k, site, "; ".join(dict.fromkeys(pv.how)) or "create_md_parser(config, renderer)")
 
 
 def enclosing_expr(n: ast.AST) -> ast.AST:
@@ -3749,6 +4112,39 @@ def mutants(corpus: Corpus):
     ex = find_node(f, lambda n: isinstance(n, ast.Assign) and unparse(n.targets[0]) == "explicit")
     add("c02-inventory-explicit-from-alt-text", "C02.R2", base, ex.value if ex else None, 'token.info != "auto" and bool(self.renderInlineAsText(token.children or []))', "render_link_inventory|children")
 
+    # class: near-synonym string method when the language word is cut out of the info string
+    f = base.func(R + "render_fence")
+    sp = find_node(f, lambda n: isinstance(n, ast.Call) and isinstance(n.func, ast.Attribute) and n.func.attr == "split" and "info" in unparse(n.func.value))
+    if sp is not None:
+        add("c02-fence-language-split-at-space-only", "C02.R3", base, sp, f'({_seg(base, sp.func.value)}).split(" ", 1)', "first whitespace-delimited word")
+        add("c02-fence-language-partition-space", "C02.R3", base, sp, f'[x for x in ({_seg(base, sp.func.value)}).partition(" ")[::2] if x]', "first whitespace-delimited word")
+    else:
+        out.append(("c02-fence-language-*", "split of the info string not found"))
+    f = base.func(R + "render_code_block")
+    sp = find_node(f, lambda n: isinstance(n, ast.Call) and isinstance(n.func, ast.Attribute) and n.func.attr == "split" and "info" in unparse(n.func.value))
+    add("c02-code-block-language-split-at-space-only", "C02.R3", base, sp, f'({_seg(base, sp.func.value)}).split(" ")' if sp is not None else "", "first whitespace-delimited word")
+    # class: a percent-decoded destination is stored without being re-encoded
+    f = base.func(R + "render_link_url")
+    first = find_node(f, lambda n: isinstance(n, ast.Assign) and unparse(n.targets[0]) == "uri" and "attrGet" in unparse(n.value))
+    add("c02-refuri-decoded-for-every-url-link", "C02.R3", base, first.value if first else None, "self.md.normalizeLinkText(" + (_seg(base, first.value) if first else "") + ")", "decoded unconditionally")
+    f = base.func(R + "render_image")
+    st = find_node(f, lambda n: isinstance(n, ast.Assign) and unparse(n.targets[0]) == "img_node['uri']")
+    add("c02-image-uri-decoded", "C02.R3", base, st.value if st else None, "self.md.normalizeLinkText(destination)", "uri stored percent-decoded")
+    # class: the HTML conversion looks at a filtered subset of the parsed children
+    h2n = corpus.mod("mdit_to_docutils.html_to_nodes")
+    f = h2n.func("html_to_nodes")
+    gate = find_node(f, lambda n: isinstance(n, ast.Call) and dotted(n.func) == "all" and n.args and isinstance(n.args[0], ast.GeneratorExp))
+    conv = find_node(f, lambda n: isinstance(n, ast.For) and any(isinstance(c, ast.Call) and isinstance(c.func, ast.Attribute) and c.func.attr == "run_directive" for c in ast.walk(n)))
+    if gate is not None and conv is not None:
+        git = gate.args[0].generators[0].iter
+        src2 = splice(h2n.src, conv.iter, "[c for c in root if c.name]")
+        src2 = splice(src2, git, "[c for c in root if c.name]")  # the gate precedes the loop in the file: offsets before it are unchanged
+        out.append(Mutant("c02-html-only-elements-considered", "C02.R3", h2n.rel, src2, expect="ranges over every child"))
+        add("c02-html-gate-skips-text-children", "C02.R3", h2n, git, "(c for c in root if c.name)", "convertibility gate")
+        add("c02-html-loop-skips-last-child", "C02.R3", h2n, conv.iter, "list(root)[:-1]", "conversion loop")
+    else:
+        out.append(("c02-html-*", "gate/loop of html_to_nodes not found"))
+
     # ---- R4
     f = base.func(R + "render_paragraph")
     w = find_node(f, lambda n: isinstance(n, ast.With))
@@ -3811,6 +4207,15 @@ def mutants(corpus: Corpus):
         out.append(Mutant("c02-parser-built-from-default-config", "C02.R5", mdit.rel, mdit.src + fresh_default, expect="not from the configuration it is given", more={dmod.rel: d2, smod.rel: s2}))
     else:
         out.append(("c02-parser-cache-*", "create_md_parser call not found in a front end"))
+    fe = dmod.func("Parser.parse")
+    asg = find_node(fe, lambda n: isinstance(n, ast.Assign) and isinstance(n.value, ast.Call) and unparse(n.value.func) == "create_md_parser")
+    if asg is not None:
+        ind = indent_of(fe, asg)
+        tgt = unparse(asg.targets[0])
+        call_txt = _seg(dmod, asg.value)
+        add("c02-front-end-cache-keyed-on-repr", "C02.R5", dmod, asg, f"key = repr(config)\n{ind}if key not in self._md_parsers:\n{ind}    self._md_parsers[key] = {call_txt}\n{ind}{tgt} = self._md_parsers[key]", "repr of the configuration")
+        fields = "(config.commonmark_only, config.gfm_only, tuple(sorted(config.enable_extensions)), tuple(config.disable_syntax), config.enable_checkboxes, config.words_per_minute, config.linkify_fuzzy_links, config.dmath_allow_labels, config.dmath_allow_space, config.dmath_allow_digits, config.dmath_double_inline, tuple(config.sub_delimiters))"
+        add("c02-front-end-cache-not-refreshed", "C02.R5", dmod, asg, f"key = {fields}\n{ind}if key not in self._md_parsers:\n{ind}    self._md_parsers[key] = {call_txt}\n{ind}{tgt} = self._md_parsers[key]", "does not refresh")
     fe = smod.func("MystParser.parse")
     c = find_node(fe, lambda n: isinstance(n, ast.Call) and unparse(n.func) == "create_md_parser")
     add("c02-sphinx-front-end-wrong-renderer", "C02.R5", smod, c.args[1] if c is not None and len(c.args) > 1 else None, "RendererHTML", "not with a DocutilsRenderer class")
